@@ -149,6 +149,35 @@ Qed.
 Lemma NoDup_pair_map (s : Z) (l : list Z) : NoDup l -> NoDup (map (fun a : Z => (s, a)) l).
 Proof. intros H. apply Injective_map_NoDup; [|exact H]. intros x y E. congruence. Qed.
 
+Lemma NoDup_flat_map_disj {A B} (f : A -> list B) (l : list A) :
+  NoDup l -> (forall x, In x l -> NoDup (f x)) ->
+  (forall x y z, In x l -> In y l -> x <> y -> In z (f x) -> In z (f y) -> False) ->
+  NoDup (flat_map f l).
+Proof.
+  induction l as [|a l IH]; intros Hl Hf Hd; cbn [flat_map]; [constructor|].
+  inversion Hl as [|? ? Ha Hl']; subst. apply NoDup_app_local.
+  - apply Hf. left. reflexivity.
+  - apply IH; auto.
+    + intros x Hx. apply Hf. right. exact Hx.
+    + intros x y z Hx Hy. apply Hd; right; assumption.
+  - intros z Hz1 Hz2. apply in_flat_map in Hz2. destruct Hz2 as (y & Hy & Hz2).
+    apply (Hd a y z); auto; [left; reflexivity|right; exact Hy|]. intros ->. contradiction.
+Qed.
+
+Lemma NoDup_comp_children sid addr cnt dw pc : 0 <= dw -> 0 <= pc -> NoDup (children (GComp sid addr cnt dw pc)).
+Proof.
+  intros Hd Hp. cbn [children]. apply NoDup_flat_map_disj.
+  - unfold zseq. apply Injective_map_NoDup; [|apply seq_NoDup]. intros x y E. lia.
+  - intros e _. apply NoDup_pair_map, NoDup_zseq.
+  - intros e e' z He He' Hne Hz Hz'.
+    unfold zseq in He, He'. apply in_map_iff in He. destruct He as (n & <- & _). apply in_map_iff in He'. destruct He' as (n' & <- & _).
+    apply in_map_iff in Hz. destruct Hz as (a & <- & Ha). apply in_map_iff in Hz'. destruct Hz' as (a' & E & Ha').
+    unfold zseq in Ha, Ha'. apply in_map_iff in Ha. destruct Ha as (k & <- & Hk). apply in_map_iff in Ha'. destruct Ha' as (k' & <- & Hk').
+    apply in_seq in Hk. apply in_seq in Hk'.
+    assert (E' : (0 + 1 * Z.of_nat n') * (dw + pc) + Z.of_nat k' = (0 + 1 * Z.of_nat n) * (dw + pc) + Z.of_nat k) by (apply (f_equal snd) in E; cbn [snd] in E; lia).
+    assert (Z.of_nat n = Z.of_nat n') by nia. apply Hne. lia.
+Qed.
+
 Lemma decode_obj_children (ms : segs) sid base w t rs :
   decode_obj ms sid base w = (t, rs) -> simple_target t ->
   NoDup (children t) /\ (forall r, rs = [r] -> r_size r = 0 -> children t = []).
@@ -173,9 +202,14 @@ Proof.
       assert (HC : f_C w = 6) by lia. rewrite HC in Hz. change (et_bits 6) with 64 in Hz.
       assert (HD : f_D w = 0) by (unfold f_D in *; lia). rewrite HD. reflexivity.
     + destruct (negb (in_seg ms sid _ _)); [inversion H; subst; cbn in S; contradiction|].
-      destruct (word_at ms sid (base + 8 * f_off w)); [|inversion H; subst; cbn in S; contradiction].
+      destruct (word_at ms sid (base + 8 * f_off w)) as [tag|]; [|inversion H; subst; cbn in S; contradiction].
+      destruct (negb (f_A tag =? 0)); [inversion H; subst; cbn in S; contradiction|].
       destruct (negb _); [inversion H; subst; cbn in S; contradiction|].
-      destruct (negb _); inversion H; subst; cbn in S; contradiction.
+      apply pair_equal_spec in H. destruct H as [<- <-]. split.
+      * apply NoDup_comp_children; unfold f_dw, f_pc, two32; lia.
+      * intros r Er Hz. exfalso.
+        assert (Er' : r = mkReg sid (base + 8 * f_off w) (8 + 8 * f_D w)) by congruence.
+        subst r. change (8 + 8 * f_D w = 0) in Hz. unfold f_D in Hz. lia.
 Qed.
 
 Lemma resolve_children (ms : segs) s a t rs :
@@ -276,15 +310,15 @@ Proof.
   { intros p Hp. destruct (hi_slots _ _ _ H p Hp) as (t & rs & E & S & C).
     destruct (resolve_children _ _ _ _ _ E S) as (N & Z1 & Z2).
     exists t, rs. split; [exact E|]. split; [destruct t; cbn in *; auto; contradiction|]. split; [exact N|].
-    destruct C as [->|(ps & r & -> & Ips & D)].
+    destruct C as [[-> _]|(ps & r & -> & Ips & D)].
     - split; [intros c Hc; rewrite (Z2 eq_refl) in Hc; destruct Hc|constructor].
     - split.
-      + destruct D as [D|(h & Hh & -> & ->)].
+      + destruct D as [[D _]|(h & Hh & -> & ->)].
         * intros c Hc. rewrite (Z1 ps r eq_refl D) in Hc. destruct Hc.
         * intros c Hc. unfold G. right. apply in_flat_map. exists h. split; [exact Hh|exact Hc].
       + apply Forall_app. split.
         * apply Forall_forall. intros x Hx. right. unfold all_regs. apply in_or_app. right. apply Ips. exact Hx.
-        * constructor; [|constructor]. destruct D as [D|(h & Hh & -> & _)]; [left; exact D|right].
+        * constructor; [|constructor]. destruct D as [[D _]|(h & Hh & -> & _)]; [left; exact D|right].
           unfold all_regs, regsO. apply in_or_app. left. right. apply in_map. exact Hh. }
   destruct (collect_ok (bm_data m) G (Rg objs pads) Gpos Gres
               (Z.to_nat (total_words (bm_data m) + 2)) [(0, 0)] [] [mkReg 0 0 8]) as (acc & E & RA).
@@ -303,12 +337,13 @@ Qed.
 Theorem heap_inv_sublang_valid a cfgd cfgs ncaps fuel src ops m :
   arena_spec_wf a -> root_cap_ok a -> create a (init_rlimit cfgd) = Ok m -> sub_prog ops = true ->
   let st0 := mkBSt (mkW m src (init_rlimit cfgs)) [] in
+  plain_run (mkEnv cfgd cfgs ncaps fuel) st0 ops ->
   Forall seg_bound (bstates (mkEnv cfgd cfgs ncaps fuel) st0 ops) ->
   Forall (fun st => valid_message (bm_data (w_dst (st_w st))) = VOk) (bstates (mkEnv cfgd cfgs ncaps fuel) st0 ops).
 Proof.
-  intros Ha Hr Hc Hp st0 Hb.
-  pose proof (heap_inv_sublang a cfgd cfgs ncaps fuel src ops m Ha Hr Hc Hp Hb) as H.
-  eapply Forall_impl; [|exact H]. intros st (pads & Hs & _). eapply hinv_valid; eauto.
+  intros Ha Hr Hc Hp st0 Hpl Hb.
+  pose proof (heap_inv_sublang a cfgd cfgs ncaps fuel src ops m Ha Hr Hc Hp Hpl Hb) as H.
+  eapply Forall_impl; [|exact H]. intros st (objs & pads & Hs & _). eapply hinv_valid; eauto.
 Qed.
 
 (* non-vacuity: a program of the sub-language with a far pointer, and its final state is valid *)
@@ -316,3 +351,27 @@ Example sublang_example :
   sub_prog [BNewStruct 0 0 1; BNewStruct 1 8 0; BSetUint 1 0 8 258; BSetPtr 0 0 1; BSetRoot 0] = true /\
   arena_spec_wf (ArRaw [24; 16]) /\ root_cap_ok (ArRaw [24; 16]).
 Proof. split; [reflexivity|]. split; [repeat constructor; lia|cbn; lia]. Qed.
+
+Definition ex2_ops : list bop :=
+  [BNewStruct 0 0 1; BNewComp 0 8 1 2; BSetPtr 0 0 1; BRead InDst (OLStruct 1 1); BSetUint 2 0 8 7;
+   BNewStruct 0 8 0; BSetPtr 2 0 3; BNewPList 0 1; BPLSet 4 0 3; BListSetUint 1 0 8 9; BSetRoot 0].
+Definition ex2_env := mkEnv (mkCfg 0 0 true true) (mkCfg 0 0 true true) 0 64%nat.
+Definition ex2_m : bmsg := mkBM AMulti [mkBS [0; 0; 0; 0; 0; 0; 0; 0] 1024] [] 67108864.
+Definition ex2_st0 := mkBSt (mkW ex2_m [] 100) [].
+Lemma seg_bound_b l : forallb (fun st => nsegs (w_dst (st_w st)) <? 4294967296) l = true -> Forall seg_bound l.
+Proof. intros H. apply Forall_forall. intros st Hst. rewrite forallb_forall in H. specialize (H st Hst). unfold seg_bound. lia. Qed.
+
+(* non-vacuity of the extended sub-language: a composite list, a member handle used as data and
+   pointer container, PointerList.Set, a typed setter on the composite list; the premises of
+   [heap_inv_sublang_valid] hold and its conclusion agrees with the computed verdicts *)
+Example sublang_example2 :
+  create (ArMulti None) (init_rlimit (mkCfg 0 0 true true)) = Ok ex2_m /\
+  sub_prog ex2_ops = true /\
+  plain_run ex2_env ex2_st0 ex2_ops /\
+  Forall seg_bound (bstates ex2_env ex2_st0 ex2_ops) /\
+  map (fun st => valid_message (bm_data (w_dst (st_w st)))) (bstates ex2_env ex2_st0 ex2_ops) = repeat VOk 12.
+Proof.
+  split; [vm_compute; reflexivity|]. split; [reflexivity|]. split.
+  - vm_compute. repeat split; intros; reflexivity.
+  - split; [apply seg_bound_b; vm_compute; reflexivity|vm_compute; reflexivity].
+Qed.
